@@ -132,26 +132,42 @@ pub struct Accepted<K: Kit> {
     pub flats: Vec<Vec<f64>>,
     pub dp: Vec<f64>,
     pub pivot: K::S,
-    /// rejected queries (for oracles that need "the checker said no on this segment")
+    /// rejected queries (for oracles that need "the checker said no on this segment"),
+    /// sorted by distance to the pivot like the accepted ones
     pub rejected: Vec<K::S>,
+    pub rej_dp: Vec<f64>,
+    /// accepted queries in log order (duplicates kept) and the log positions of each bit
+    /// pattern: a *hint* for `max_gap` (the queries of one motion check are contiguous), never
+    /// an assumption - when the hint does not prove coverage the full index is scanned
+    pub order: Vec<K::S>,
+    pub pos_by_hash: std::collections::HashMap<u64, Vec<u32>>,
 }
 
 impl<K: Kit> Accepted<K> {
     pub fn from_log(kit: &K, sp: &K::SP, recs: &[Rec], pivot_flat: &[f64]) -> Self {
         let pivot = kit.unflat(pivot_flat);
         let mut items: Vec<(f64, Vec<f64>)> = vec![];
-        let mut rejected = vec![];
+        let mut rejected: Vec<(f64, Vec<f64>)> = vec![];
         let mut seen = std::collections::HashSet::new();
+        let mut seen_rej = std::collections::HashSet::new();
+        let mut order: Vec<K::S> = vec![];
+        let mut pos_by_hash: std::collections::HashMap<u64, Vec<u32>> = std::collections::HashMap::new();
         for r in recs {
             if let Ev::Valid(f, ok) = &r.ev {
                 if *ok {
                     let h = crate::util::hash_f64s(crate::util::FNV0, f);
+                    pos_by_hash.entry(h).or_default().push(order.len() as u32);
+                    order.push(kit.unflat(f));
                     if seen.insert(h) {
                         let s = kit.unflat(f);
                         items.push((sp.distance(&pivot, &s), f.clone()));
                     }
                 } else {
-                    rejected.push(kit.unflat(f));
+                    let h = crate::util::hash_f64s(crate::util::FNV0, f);
+                    if seen_rej.insert(h) {
+                        let s = kit.unflat(f);
+                        rejected.push((sp.distance(&pivot, &s), f.clone()));
+                    }
                 }
             }
         }
@@ -159,14 +175,76 @@ impl<K: Kit> Accepted<K> {
         let dp = items.iter().map(|x| x.0).collect();
         let states = items.iter().map(|x| kit.unflat(&x.1)).collect();
         let flats = items.into_iter().map(|x| x.1).collect();
-        Accepted { states, flats, dp, pivot, rejected }
+        rejected.sort_by(|a, b| a.0.partial_cmp(&b.0).unwrap_or(std::cmp::Ordering::Equal));
+        let rej_dp = rejected.iter().map(|x| x.0).collect();
+        let rejected = rejected.iter().map(|x| kit.unflat(&x.1)).collect();
+        Accepted { states, flats, dp, pivot, rejected, rej_dp, order, pos_by_hash }
     }
 
     /// Largest gap (in the space's metric) between accepted queries lying on segment (a,b),
     /// including the gaps a->first and last->b. Also returns the number of on-segment queries.
     pub fn max_gap(&self, kit: &K, sp: &K::SP, a: &K::S, b: &K::S) -> (f64, usize, f64) {
+        self.max_gap_impl(kit, sp, a, b, true)
+    }
+    /// Same verdict, but always scans the complete index so that the reported gap is the true
+    /// largest gap (used where the number goes into the evidence).
+    pub fn max_gap_full(&self, kit: &K, sp: &K::SP, a: &K::S, b: &K::S) -> (f64, usize, f64) {
+        self.max_gap_impl(kit, sp, a, b, false)
+    }
+    fn max_gap_impl(&self, kit: &K, sp: &K::SP, a: &K::S, b: &K::S, shortcuts: bool) -> (f64, usize, f64) {
         let l = sp.distance(a, b);
         let on_tol = 1e-9 * (1.0 + l) + if kit.spec().has_so3() { 1e-7 } else { 0.0 };
+        // a segment no longer than the resolution is covered by its end points alone
+        let lvs = sp.get_longest_valid_segment_length();
+        if shortcuts && l <= lvs {
+            return (l, 0, l);
+        }
+        // fast path: the queries of one motion check are contiguous in the log, next to the
+        // query for its end point. Look for a log position of an end point whose neighbour lies
+        // on the segment and examine the window around it. Only a hint: if it does not prove
+        // coverage, the complete index is scanned below.
+        if shortcuts && lvs > 0.0 && l.is_finite() {
+            let on = |s: &K::S| -> Option<f64> {
+                let d1 = sp.distance(a, s);
+                if d1 <= l + on_tol && d1 + sp.distance(s, b) <= l + on_tol {
+                    Some(d1.min(l))
+                } else {
+                    None
+                }
+            };
+            let w = ((3.0 * (l / (0.1 * lvs)).ceil()) as usize).min(6000) + 8;
+            let mut tried = 0;
+            'outer: for end in [b, a] {
+                let h = crate::util::hash_f64s(crate::util::FNV0, &K::flat(end));
+                let Some(ps) = self.pos_by_hash.get(&h) else { continue };
+                for &p in ps.iter() {
+                    let p = p as usize;
+                    let interior = |q: &K::S| on(q).map(|x| x > on_tol && x < l - on_tol).unwrap_or(false);
+                    let near = (p > 0 && interior(&self.order[p - 1])) || (p + 1 < self.order.len() && interior(&self.order[p + 1]));
+                    if !near {
+                        continue;
+                    }
+                    tried += 1;
+                    let lo = p.saturating_sub(w);
+                    let hi = (p + w + 1).min(self.order.len());
+                    let mut pos: Vec<f64> = self.order[lo..hi].iter().filter_map(|s| on(s)).collect();
+                    pos.sort_by(|x, y| x.partial_cmp(y).unwrap_or(std::cmp::Ordering::Equal));
+                    let mut gap = 0.0f64;
+                    let mut prev = 0.0f64;
+                    for q in &pos {
+                        gap = gap.max(q - prev);
+                        prev = *q;
+                    }
+                    gap = gap.max(l - prev);
+                    if gap <= lvs {
+                        return (gap, pos.len(), l);
+                    }
+                    if tried >= 4 {
+                        break 'outer;
+                    }
+                }
+            }
+        }
         let da = sp.distance(&self.pivot, a);
         let lo = da - l - on_tol - 1e-9;
         let hi = da + l + on_tol + 1e-9;
@@ -200,7 +278,12 @@ impl<K: Kit> Accepted<K> {
     pub fn rejected_on(&self, kit: &K, sp: &K::SP, a: &K::S, b: &K::S) -> bool {
         let l = sp.distance(a, b);
         let on_tol = 1e-9 * (1.0 + l) + if kit.spec().has_so3() { 1e-7 } else { 0.0 };
-        self.rejected.iter().any(|s| {
+        let da = sp.distance(&self.pivot, a);
+        let lo = da - l - on_tol - 1e-9;
+        let hi = da + l + on_tol + 1e-9;
+        let i0 = self.rej_dp.partition_point(|x| *x < lo);
+        let i1 = self.rej_dp.partition_point(|x| *x <= hi);
+        self.rejected[i0..i1].iter().any(|s| {
             let d1 = sp.distance(a, s);
             d1 <= l + on_tol && d1 + sp.distance(s, b) <= l + on_tol
         })
@@ -241,7 +324,7 @@ pub fn path_coverage<K: Kit>(kit: &K, sp: &K::SP, eval: &WorldEval<K>, acc: &Acc
     for i in 0..path.len().saturating_sub(1) {
         let a = kit.unflat(&path[i]);
         let b = kit.unflat(&path[i + 1]);
-        let (gap, n, l) = acc.max_gap(kit, sp, &a, &b);
+        let (gap, n, l) = acc.max_gap_full(kit, sp, &a, &b);
         let tol = len_tol(kit, l) + 1e-9 * (1.0 + l);
         if lvs > 0.0 && l > 0.0 {
             *worst_gap_rel = worst_gap_rel.max(gap / lvs);
